@@ -173,7 +173,8 @@ def shrink(lines, pred0, budget=400):
     return cur
 
 
-BORROWED = {'C02': {('C08', 'dup-flag'), ('C08', 'first-dup'), ('C12', 'resume-dup')}}
+BORROWED = {'C02': {('C08', 'dup-flag'), ('C08', 'first-dup'), ('C12', 'resume-dup'), ('C08', 'content'), ('C12', 'resume-content')},
+            'C07': {('C08', 'content'), ('C08', 'dup-flag'), ('C08', 'first-dup')}}
 
 
 def judge(prop, lines):
@@ -428,6 +429,8 @@ def c04(ctx):
                     for k2 in (0, 2, 30):
                         for k3 in ((0, 5) if ctx['tier'] != 'quick' or k1 != k2 else (0,)):
                             b = ['factory %d' % prof, 'build a0', 'sethandlers 0 7']
+                            # (the retransmission timeout set by setTimeout() is another quantity: it does not move the handshake deadline)
+                            b += ['settimeout 0 %d' % (1, 11, 30, 1024)[(k1 + k2 // 2 + k3) % 4]]
                             b += ['connect 0 %s %d %s 1' % (s_tok('c'), k1, ver), 'recv 0 %s' % hx(connack(5, 0))]
                             b += ['connect 0 %s %d %s 0' % (s_tok('c'), k2, ver), 'fire 1', 'fire 0', 'recv 0 %s' % hx(connack(0, 0))]
                             b += ['connect 0 %s %d %s 1' % (s_tok('c'), k3, ver), 'recv 0 %s' % hx(connack(0, 0)), 'fire 2', 'fire 3', 'lost 0 done', 'fire 4', 'fire 5']
@@ -503,6 +506,34 @@ def _c07(ctx):
 
 
 def c08(ctx):
+    res = _c08(ctx)
+    if not ctx.get('replay'):
+        # setTimeout() takes any number between 1 and 1024, not only integers (the model's timeouts are integers: real code and monitor only):
+        # no repeat of a packet comes earlier than the timeout in force when it was first sent
+        scen = []
+        for ver in ('311', '31'):
+            for t in ('11/4', '3/2', '1023/2', '5/4'):
+                L = longrun.Script(3)
+                try:
+                    L.do('build a0'); L.do('sethandlers 0 7'); L.do('connect 0 %s 0 %s 1' % (s_tok('c'), ver)); L.do('recv 0 20020000'); L.do('setwin 0 8')
+                    L.do('settimeout 0 %s' % t); L.do('jit 3/64')
+                    for i in range(4):
+                        L.do('publish 0 %s b:4%d %d 0' % (s_tok('f%d' % i), i, 1 + i % 2))
+                    L.do('subscribe 0 %s 1' % s_tok('s')); L.do('unsubscribe 0 %s' % s_tok('u'))
+                    L.do('recv 0 %s' % hx(ack(0x50, 2)))
+                    for k in range(14):
+                        L.fire_all(1)
+                        if k == 6:
+                            L.do('jit 61/64')
+                except Exception:
+                    pass
+                scen.append(('fractional-timeout-%s-%s' % (ver, t), list(L.lines)))
+        run_scenarios('C08', ctx, scen, res, compare_model=False, label='fractional timeout (python-only oracle)')
+        res.extra['fractional_timeout_scenarios'] = len(scen)
+    return res
+
+
+def _c08(ctx):
     def extra(ctx):
         out = []
         # k consecutive expiries of each retransmittable kind, both versions, several timeouts/bandwidths
@@ -657,6 +688,28 @@ def _c13(ctx):
             out.append(('drain%d' % seed, w.lines, w.trace))
         # identifier reuse overwrites a window entry and orphans its retry timer: walks over the counter's wrap (with a second lap), then drained
         out += wrapold_walks(ctx, 10 if ctx['tier'] == 'quick' else 200, 9700, naddr=1, w1=dict(subscribe=2, unsubscribe=2, setwin=6))
+        # several connections alive at once, each with keepalive and requests in flight: when one of them is lost, ITS timers are gone (and
+        # only its): two addresses of one factory, the three orders of loss, answered and unanswered PINGREQs
+        for prof in (3, 1, 2):
+            for order in ((0, 1), (1, 0)):
+                for answered in (True, False):
+                    L = longrun.Script(prof)
+                    try:
+                        for a, k in ((0, 4), (1, 6)):
+                            L.do('build a%d' % a); L.do('sethandlers %d 7' % a)
+                            L.do('connect %d %s %d 311 %d' % (a, s_tok('c%d' % a), k, a)); L.do('recv %d 20020000' % a); L.do('setwin %d 3' % a)
+                            if prof != 1:
+                                L.do('publish %d %s b:41 1 0' % (a, s_tok('t'))); L.do('publish %d %s b:42 2 0' % (a, s_tok('u')))
+                            if prof != 2:
+                                L.do('subscribe %d %s 1' % (a, s_tok('s')))
+                        L.fire_all(3)
+                        if answered:
+                            L.do('recv 0 d000'); L.do('recv 1 d000')
+                        L.do('lost %d lostc' % order[0]); L.fire_all(6)
+                        L.do('lost %d done' % order[1]); L.fire_all(6)
+                    except Exception:
+                        pass
+                    out.append(('two-alive-%d-%d%d-%d' % (prof, order[0], order[1], int(answered)), list(L.lines)))
         return out
     return generic('C13', ctx, 250, 6000, 60,
                    'corpus; seeded walks over all profiles and both session modes with the pending-timer snapshot judged after every step; drained walks: everything acknowledged, then up to 40 further '
@@ -703,6 +756,36 @@ def c15(ctx):
                 for d in w.pending_timers():
                     do('fire %d' % d._vid)
                 out.append(('ka%d-%s' % (k, pattern), sc))
+        # only a PINGRESP answers a PINGREQ: other traffic does not, and neither do bytes that merely look like one -- a segment that is
+        # exactly D0 00 in the middle of another packet (payload bytes, an identifier 0xD000), for every profile that receives
+        for prof in (3, 1):
+            for ver in ('311', '31'):
+                for variant in ('payload', 'identifier', 'other-traffic', 'suback-code'):
+                    L = longrun.Script(prof)
+                    try:
+                        L.do('build a0'); L.do('sethandlers 0 7'); L.do('connect 0 %s 10 %s 1' % (s_tok('c'), ver)); L.do('recv 0 20020000')
+                        if variant == 'payload':
+                            raw = publish_pkt('t', b'ab\xd0\x00cd', 0)
+                            cut = raw.index(b'\xd0\x00')
+                            chunks = [raw[:cut], raw[cut:cut + 2], raw[cut + 2:]]
+                        elif variant == 'identifier':
+                            raw = publish_pkt('t', b'xy', 1, mid=0xD000)
+                            cut = raw.index(b'\xd0\x00')
+                            chunks = [raw[:cut], raw[cut:cut + 2], raw[cut + 2:]]
+                        elif variant == 'suback-code':
+                            L.do('subscribe 0 %s 1' % s_tok('s'))
+                            i = int(next(o for o in L.last if o.startswith('ret pending')).split()[3])
+                            raw = ack(0xB0, 0xD000) + suback(i, [0])
+                            chunks = [raw[:2], raw[2:4], raw[4:]]
+                        else:
+                            chunks = [publish_pkt('t', b'x', 0), publish_pkt('t', b'y', 1, mid=7), ack(0x62, 9)]
+                        for c in chunks:
+                            L.do('recv 0 %s' % hx(c))
+                        L.fire_all(4)
+                        L.do('lost 0 aborted'); L.fire_all(2)
+                    except Exception:
+                        pass
+                    out.append(('lookalike-%d-%s-%s' % (prof, ver, variant), list(L.lines)))
         return out
     return generic('C15', ctx, 200, 5000, 60,
                    'corpus; seeded walks with keepalive in {0,1,2,5,60} and PINGRESP at random points, other traffic, loss and reconnect; enumerated: per keepalive value, runs of up to 20 '
@@ -751,6 +834,22 @@ def c17(ctx):
                         L += ['subscribe %d %s 1' % (user, s_tok('s')), 'unsubscribe %d %s' % (user, s_tok('u')), 'subscribe %d %s 0' % (user, s_tok('s2'))]
                     L += ['publish %d %s b:63 1 0' % (user, s_tok('n3')), 'publish %d %s b:64 1 0' % (user, s_tok('n4'))]
                     out.append(('heldback-%d-%d-%s' % (prof, win, variant), L))
+        # a long run of consecutive identifiers all still in use right after the wrap (70, 140 or 300 held-back messages behind window 1, also
+        # split over two addresses): the search for a free identifier has to walk past all of them
+        for prof in ((3,) if ctx['tier'] == 'quick' else (3, 2)):
+            for n, two in ((70, False), (140, True), (300, False)):
+                if ctx['tier'] == 'quick' and n == 300:
+                    continue
+                L = ['factory %d' % prof, 'build a0', 'sethandlers 0 7', 'connect 0 %s 0 311 0' % s_tok('c'), 'recv 0 20020000', 'setwin 0 1']
+                if two:
+                    L += ['build a1', 'sethandlers 1 7', 'connect 1 %s 0 31 1' % s_tok('d'), 'recv 1 20020000', 'setwin 1 1']
+                for i in range(n):
+                    L.append('publish %d %s b:%02x %d 0' % (i % 2 if two else 0, s_tok('r%d' % i), i % 256, 1 + i % 2))
+                L += ['setid 65533', 'publish 0 %s b:61 1 0' % s_tok('n1'), 'publish 0 %s b:62 2 0' % s_tok('n2')]
+                if prof == 3:
+                    L += ['subscribe 0 %s 1' % s_tok('s'), 'unsubscribe 0 %s' % s_tok('u')]
+                L += ['publish 0 %s b:63 1 0' % s_tok('n3'), 'recv 0 %s' % hx(ack(0x40, 1)), 'publish 0 %s b:64 2 0' % s_tok('n4')]
+                out.append(('busy-run-%d-%d-%d' % (prof, n, int(two)), L))
         return out
     return generic('C17', ctx, 250, 6000, 60,
                    'corpus; seeded walks issuing requests of every kind; additionally walks started with the identifier counter placed at 65530..65535, and two-address walks in which requests of every kind are left unfinished under low identifiers before the counter is placed at 65531..65535 and new requests of every kind follow',
@@ -870,8 +969,35 @@ def c13(ctx):
     return res
 
 
+def mistyped_connects(p):
+    """connect() calls whose arguments have the right values but a wrong Python type somewhere (bytes, int, float, None, list where a str
+    is expected; a str where a number is): outside the model's argument types, judged on the real code only"""
+    C, U, W, M = s_tok('c'), s_tok('user'), s_tok('w'), s_tok('m')
+    out = []
+    for cid in ('n', 'i:5', 'y:636c69', 'f:1.5', 'l:'):
+        out.append('connect %d %s 0 311 1' % (p, cid))
+    for pw in ('y:736563726574', 'i:7', 'b:7365', 'l:'):
+        out.append('connect %d %s 0 311 1 n n 0 0 %s %s' % (p, C, U, pw))
+    for us in ('y:75', 'i:7'):
+        out.append('connect %d %s 0 311 1 n n 0 0 %s %s' % (p, C, us, s_tok('pw')))
+    for wt, wm in (('y:77', M), (W, 'y:6d'), ('i:3', M), (W, 'i:3'), (W, 'b:6d')):
+        out.append('connect %d %s 0 311 1 %s %s 1 0' % (p, C, wt, wm))
+    return out
+
+
 def c14(ctx):
     res = _c14(ctx)
+    if not ctx.get('replay'):
+        # after a connect() that raised for a wrongly typed argument the protocol is idle as before: every operation is refused or honoured
+        # as in IDLE, and a corrected connect() is honoured (real code only: the model's connect() has typed arguments)
+        scen = []
+        for prof in (1, 2, 3):
+            pre = ['factory %d' % prof, 'build a0', 'sethandlers 0 7']
+            for c in mistyped_connects(0):
+                scen.append(('%d-mistyped' % prof, pre + [c, 'publish 0 %s b:41 0 0' % s_tok('t'), 'subscribe 0 %s 1' % s_tok('s'),
+                                                         'connect 0 %s 0 311 1' % s_tok('c'), 'recv 0 20020000', 'publish 0 %s b:41 1 0' % s_tok('t'), 'subscribe 0 %s 1' % s_tok('s')]))
+        run_scenarios('C14', dict(ctx, noshrink=True), scen, res, compare_model=False, label='mistyped connect (python-only oracle)')
+        res.extra['mistyped_connect_scenarios'] = len(scen)
     reentry_check(ctx, res, 'C14')
     return res
 
@@ -933,6 +1059,19 @@ def _c18(ctx):
                     sc = pre + ['subscribe 0 l: 0', 'unsubscribe 0 L:', 'subscribe 0 %s 0' % E, 'unsubscribe 0 %s' % E, 'subscribe 0 %s 2' % L,
                                 'publish 0 %s b: 0 0' % E, 'publish 0 %s b: 1 1' % E, 'publish 0 %s s: 2 0' % L, 'fire 0', 'fire 1', 'fire 2', 'lost 0 done']
                     out.append(('edge-%d-%s' % (prof, ver), sc))
+        # packets whose remaining length sits exactly on and next to the boundaries of the variable-length field (127/128, 16383/16384,
+        # thorough: 2097151/2097152), as PUBLISH at QoS 0 and 1 and as SUBSCRIBE / UNSUBSCRIBE
+        rems = [126, 127, 128, 129, 16382, 16383, 16384, 16385] + ([2097150, 2097151, 2097152, 2097153] if ctx['tier'] != 'quick' else [])
+        for ver in ('311', '31'):
+            sc = ['factory 3', 'build a0', 'sethandlers 0 7', 'connect 0 %s 0 %s 1' % (s_tok('c'), ver), 'recv 0 20020000', 'setwin 0 16']
+            for rem in rems:
+                sc.append('publish 0 %s b:%s 0 0' % (s_tok('t'), '5a' * (rem - 3)))
+                sc.append('publish 0 %s b:%s 1 0' % (s_tok('t'), '5a' * (rem - 5)))
+            for rem in rems[:8]:
+                if rem - 5 <= 65535:
+                    sc.append('subscribe 0 %s 1' % s_tok('s' * (rem - 5)))            # 2 (id) + 2 + len + 1 (qos)
+                    sc.append('unsubscribe 0 %s' % s_tok('u' * (rem - 4)))            # 2 (id) + 2 + len
+            out.append(('remaining-length-boundaries-%s' % ver, sc))
         return out
     res = generic('C18', ctx, 250, 6000, 60,
                   'corpus; seeded walks in all profiles including API calls and timer expiries between disconnect()/abort and the loss report, and connect() on idle-again protocols; every write is '
@@ -1156,6 +1295,8 @@ def c20(ctx):
             if name == 'idle':
                 for c in connects(0):
                     scen.append(('%d-connect' % prof, pre + [c, 'publish 0 %s b:41 0 0' % s_tok('t')]))
+                for c in mistyped_connects(0):
+                    scen_nomodel.append(('%d-connect-mistyped' % prof, pre + [c, 'publish 0 %s b:41 0 0' % s_tok('t'), 'connect 0 %s 0 311 1' % s_tok('c')]))
     corpus = corpus_scenarios('C20')
     run_scenarios('C20', ctx, corpus, res, label='corpus')
     run_scenarios('C20', dict(ctx, noshrink=True), scen, res, label='enumerated')
